@@ -434,7 +434,7 @@ func TestCheck(t *testing.T) {
 			idx = append(idx, i)
 		}
 	}
-	rej, res := tv.Validate(tlc.Opts{Dir: "Batcher", Module: "TraceBatch", Config: "TraceBatch.cfg", Workers: 16, Timeout: ev.Pick(6*time.Minute, 40*time.Minute), HeapMB: 12000}, jb)
+	rej, res := tv.ValidateChunked(tlc.Opts{Dir: "Batcher", Module: "TraceBatch", Config: "TraceBatch.cfg", Workers: 16, Timeout: ev.Pick(6*time.Minute, 40*time.Minute), HeapMB: 12000}, jb)
 	fmt.Printf("TLC contract validation: ok=%v traces=%d rejected=%d distinct=%d wall=%s %s\n", res.OK, jb.Len(), len(rej), res.Distinct, res.Wall.Round(time.Millisecond), res.What)
 	if !res.OK {
 		e.Inconclusive("trace validation did not run: " + res.What + res.Tail(1500))
@@ -483,7 +483,7 @@ func selfTest(e *ev.Evidence) {
 	mk([]int{1, 2}, 14) // the superseded value was delivered too
 	mk([]int{2}, 8)     // delivered before the interval elapsed
 	mk([]int{}, 14)     // never delivered
-	rej, res := tv.Validate(tlc.Opts{Dir: "Batcher", Module: "TraceBatch", Config: "TraceBatch.cfg", Workers: 2, Timeout: 2 * time.Minute}, b)
+	rej, res := tv.ValidateChunked(tlc.Opts{Dir: "Batcher", Module: "TraceBatch", Config: "TraceBatch.cfg", Workers: 2, Timeout: 2 * time.Minute}, b)
 	got := map[int]bool{}
 	for _, r := range rej {
 		got[r.Trace] = true
